@@ -238,6 +238,7 @@ var errnoByName = map[string]syscall.Errno{
 	"EROFS": syscall.EROFS, "EDQUOT": syscall.EDQUOT, "EINTR": syscall.EINTR, "ENOMEM": syscall.ENOMEM,
 	"EPERM": syscall.EPERM, "ENOENT": syscall.ENOENT, "EEXIST": syscall.EEXIST, "ENOTDIR": syscall.ENOTDIR,
 	"EISDIR": syscall.EISDIR, "ENOTEMPTY": syscall.ENOTEMPTY, "EXDEV": syscall.EXDEV, "EBUSY": syscall.EBUSY,
+	"EAGAIN": syscall.EAGAIN,
 }
 
 func pathErr(op, path string, e error) error { return &fs.PathError{Op: op, Path: path, Err: e} }
